@@ -116,25 +116,30 @@ class FrequencyDomainSolution(CircuitSolution):
     def __post_init__(self):
         self.w = np.array(frequency_components(self.circuit, self.w_max))
         self._solutions = np.array([ComplexSolution(circuit=self.circuit, solver=self.solver, w=w, peak_values=True) for w in self.w])
+        self._positive = self.w > 0
         if not self.one_sided:
-            self.w = np.concatenate((-self.w[-1:0:-1], self.w))
-            self._solutions = 1/2*np.concatenate((np.conj(self._solutions[-1:0:-1]), self._solutions))
+            self.w = np.concatenate((-self.w[self._positive][::-1], self.w))
+
+    def _spectrum(self, values: np.ndarray) -> np.ndarray:
+        if self.one_sided:
+            return values
+        return np.concatenate((np.conj(values[self._positive][::-1])/2, np.where(self._positive, values/2, values)))
 
     def get_voltage(self, component_id: str) -> FrequencyDomainSeries:
         voltages = np.array([solution.get_voltage(component_id) for solution in self._solutions])
-        return np.array(self.w), voltages
+        return np.array(self.w), self._spectrum(voltages)
 
     def get_current(self, component_id: str) -> FrequencyDomainSeries:
         currents = np.array([solution.get_current(component_id) for solution in self._solutions])
-        return np.array(self.w), currents
+        return np.array(self.w), self._spectrum(currents)
 
     def get_potential(self, node_id: str) -> FrequencyDomainSeries:
         potentials = np.array([solution.get_potential(node_id) for solution in self._solutions])
-        return np.array(self.w), potentials
+        return np.array(self.w), self._spectrum(potentials)
 
     def get_power(self, component_id: str) -> FrequencyDomainSeries:
         power = np.array([solution.get_power(component_id) for solution in self._solutions])
-        return np.array(self.w), power
+        return np.array(self.w), self._spectrum(power)
 
 @dataclass
 class TransientSolution(CircuitSolution):
